@@ -123,8 +123,8 @@ PROPS = {
                  "or beyond and a later event is an error, admin or timer-boundary event; distinct by case hash"),
         "assumptions": ["the scripted peer's writes are consumed by the server at the virtual instant they are issued"],
         "units": [
-            {"pkg": S, "test": "TestVerifC07", "quick": (16, 1000), "thorough": (16, 20000), "timeout_q": 1500},
-            {"pkg": S, "test": "TestVerifC07_active", "quick": (16, 400), "thorough": (16, 20000), "timeout_q": 1500},
+            {"pkg": S, "test": "TestVerifC07", "quick": (16, 1000), "thorough": (16, 15000), "timeout_q": 1500},
+            {"pkg": S, "test": "TestVerifC07_active", "quick": (16, 400), "thorough": (16, 12000), "timeout_q": 1500},
         ],
     },
     "C05": {
@@ -148,7 +148,7 @@ PROPS = {
         "assumptions": [],
         "units": [
             {"pkg": B, "test": "TestVerifC05", "env": {"VERIF_CASE_SECONDS": "30", "VERIF_CASE_HEAP_MB": "1536"}, "quick": (16, 30000), "thorough": (16, 1500000)},
-            {"pkg": B, "kind": "fuzz", "test": "FuzzVerifC05", "fuzz_seconds": 600},
+            {"pkg": B, "kind": "fuzz", "test": "FuzzVerifC05", "fuzz_seconds": 400},
         ],
     },
     "C11": {
@@ -229,7 +229,7 @@ PROPS = {
         "rule": ("non-trivial when at least one rewrite or filtering rule fires for some (route, target) pair; distinct by case hash"),
         "assumptions": [],
         "units": [
-            {"pkg": S, "test": "TestVerifC09", "quick": (16, 400), "thorough": (16, 20000), "timeout_q": 1500},
+            {"pkg": S, "test": "TestVerifC09", "quick": (16, 400), "thorough": (16, 12000), "timeout_q": 1500},
         ],
     },
     "C01": {
@@ -252,7 +252,7 @@ PROPS = {
                  "after the third operation; distinct by case hash"),
         "assumptions": ["ListPath(GLOBAL) lists the best path first"],
         "units": [
-            {"pkg": S, "test": "TestVerifC01", "quick": (16, 150), "thorough": (16, 8000), "timeout_q": 1500},
+            {"pkg": S, "test": "TestVerifC01", "quick": (16, 150), "thorough": (16, 4000), "timeout_q": 1500},
         ],
     },
     "C02": {
@@ -270,7 +270,7 @@ PROPS = {
         "rule": ("same histories and rule as C01; distinct by case hash"),
         "assumptions": [],
         "units": [
-            {"pkg": S, "test": "TestVerifC02", "quick": (16, 150), "thorough": (16, 5000), "timeout_q": 1500},
+            {"pkg": S, "test": "TestVerifC02", "quick": (16, 150), "thorough": (16, 2500), "timeout_q": 1500},
             {"pkg": T, "test": "TestVerifC02_table", "quick": (16, 150), "thorough": (16, 20000), "timeout_q": 1500},
         ],
     },
@@ -344,9 +344,9 @@ PROPS = {
         "rule": ("non-trivial when the new program differs from the old one and the fresh run's Loc-RIB is not empty; distinct by case hash"),
         "assumptions": [],
         "units": [
-            {"pkg": S, "test": "TestVerifC15", "quick": (16, 100), "thorough": (16, 6000), "timeout_q": 1500},
+            {"pkg": S, "test": "TestVerifC15", "quick": (16, 100), "thorough": (16, 3000), "timeout_q": 1500},
             # ROUTE-REFRESH answered while another peer's update is in flight (C01's histories, op hRaceRefresh, steered schedules)
-            {"pkg": S, "test": "TestVerifC01", "quick": (16, 100), "thorough": (16, 4000), "timeout_q": 1500},
+            {"pkg": S, "test": "TestVerifC01", "quick": (16, 100), "thorough": (16, 1500), "timeout_q": 1500},
         ],
     },
     "C19": {
@@ -385,12 +385,12 @@ PROPS = {
             {"pkg": "pkg/packet/rtr", "test": "TestVerifC19_rtr", "env": {"VERIF_CASE_SECONDS": "30", "VERIF_CASE_HEAP_MB": "1536"}, "quick": (4, 10000), "thorough": (16, 1000000)},
             {"pkg": "pkg/zebra", "test": "TestVerifC19_zebra", "env": {"VERIF_CASE_SECONDS": "30", "VERIF_CASE_HEAP_MB": "1536"}, "quick": (8, 3000), "thorough": (16, 300000)},
             {"pkg": "pkg/packet/bfd", "test": "TestVerifC19_bfd", "env": {"VERIF_CASE_SECONDS": "30", "VERIF_CASE_HEAP_MB": "1536"}, "quick": (4, 10000), "thorough": (16, 1000000)},
-            {"pkg": S, "test": "TestVerifC19_daemon_mrt", "quick": (4, 250), "thorough": (16, 20000)},
-            {"pkg": S, "test": "TestVerifC19_daemon_bmp", "quick": (8, 150), "thorough": (16, 10000)},
-            {"pkg": "pkg/packet/mrt", "kind": "fuzz", "test": "FuzzVerifC19_mrt", "fuzz_seconds": 240},
-            {"pkg": "pkg/packet/bmp", "kind": "fuzz", "test": "FuzzVerifC19_bmp", "fuzz_seconds": 240},
+            {"pkg": S, "test": "TestVerifC19_daemon_mrt", "quick": (4, 250), "thorough": (16, 8000)},
+            {"pkg": S, "test": "TestVerifC19_daemon_bmp", "quick": (8, 150), "thorough": (16, 4000)},
+            {"pkg": "pkg/packet/mrt", "kind": "fuzz", "test": "FuzzVerifC19_mrt", "fuzz_seconds": 120},
+            {"pkg": "pkg/packet/bmp", "kind": "fuzz", "test": "FuzzVerifC19_bmp", "fuzz_seconds": 120},
             {"pkg": "pkg/packet/rtr", "kind": "fuzz", "test": "FuzzVerifC19_rtr", "fuzz_seconds": 120},
-            {"pkg": "pkg/zebra", "kind": "fuzz", "test": "FuzzVerifC19_zebra", "fuzz_seconds": 240},
+            {"pkg": "pkg/zebra", "kind": "fuzz", "test": "FuzzVerifC19_zebra", "fuzz_seconds": 120},
             {"pkg": "pkg/packet/bfd", "kind": "fuzz", "test": "FuzzVerifC19_bfd", "fuzz_seconds": 60},
         ],
     },
@@ -443,9 +443,9 @@ PROPS = {
                  "traffic; distinct by case hash"),
         "assumptions": [],
         "units": [
-            {"pkg": S, "test": "TestVerifC20", "race": True, "quick": (16, 25), "thorough": (16, 2000), "timeout_q": 1500, "gomaxprocs": [1, 2, 4, 8]},
-            {"pkg": S, "test": "TestVerifC01", "race": True, "quick": (8, 25), "thorough": (16, 1500), "timeout_q": 1500, "gomaxprocs": [2, 4, 8]},
-            {"pkg": S, "test": "TestVerifC07_active", "race": True, "quick": (8, 60), "thorough": (16, 3000), "timeout_q": 1500, "gomaxprocs": [2, 4, 8]},
+            {"pkg": S, "test": "TestVerifC20", "race": True, "quick": (16, 25), "thorough": (16, 1500), "timeout_q": 1500, "gomaxprocs": [1, 2, 4, 8]},
+            {"pkg": S, "test": "TestVerifC01", "race": True, "quick": (8, 25), "thorough": (16, 800), "timeout_q": 1500, "gomaxprocs": [2, 4, 8]},
+            {"pkg": S, "test": "TestVerifC07_active", "race": True, "quick": (8, 60), "thorough": (16, 2000), "timeout_q": 1500, "gomaxprocs": [2, 4, 8]},
         ],
     },
     "C12": {
@@ -494,7 +494,7 @@ PROPS = {
                  "subset of G at some point; distinct by case hash"),
         "assumptions": [],
         "units": [
-            {"pkg": S, "test": "TestVerifC17", "quick": (16, 400), "thorough": (16, 10000), "timeout_q": 1500},
+            {"pkg": S, "test": "TestVerifC17", "quick": (16, 400), "thorough": (16, 8000), "timeout_q": 1500},
             {"pkg": T, "test": "TestVerifC17_table", "quick": (8, 3000), "thorough": (16, 100000)},
         ],
     },
